@@ -25,7 +25,7 @@ MechAgrees(r) == Predict(r) = r.got
 StepOfImpl(s, r) ==
     [ok |-> r.ref = r.got /\ (MechAgrees(r) \/ PrintT(<<"MECH", l>>)), st |-> s]
 TraceLog == ndJsonDeserialize(IOEnv.TRACE)
-T == INSTANCE TraceBase WITH Log <- TraceLog, InitSt <- 0, StepOf <- StepOfImpl
+T == INSTANCE TraceBase WITH Log <- TraceLog, InitSt <- 0, StepOf <- StepOfImpl, ResyncAtNew <- FALSE
 Spec == T!Spec
 Done == T!Done
 ====
